@@ -821,8 +821,21 @@ func (c *VCtx) ghostAssign(fr *Frame, st *State, ct *FuncContract, g *GhostStmt,
 		case "owned":
 			// an entry may only be claimed when free or changed by its holder, and only to me / zero
 			old := Select(h, k)
+			newOK := []*Term{Eq(v, c.me), Eq(v, T(old.Sort, gi.zero)), Eq(v, old)}
+			if ch, ok := extra["child"].(*Term); ok {
+				// at a go statement the entry may be handed to the goroutine being started
+				newOK = append(newOK, Eq(v, ch))
+			}
 			c.prove("ghost.owned."+gi.name, fmt.Sprintf("owned ghost map %s: the entry written is free or mine, and becomes mine or free (%s)", gi.name, g.Src), st.pc,
-				And(Or(Eq(old, T(old.Sort, gi.zero)), Eq(old, c.me), Eq(v, old)), Or(Eq(v, c.me), Eq(v, T(old.Sort, gi.zero)), Eq(v, old))), nil)
+				And(Or(Eq(old, T(old.Sort, gi.zero)), Eq(old, c.me), Eq(v, old)), Or(newOK...)), nil)
+		case "by":
+			tk := c.ghostMapByName(gi.token)
+			if tk == nil {
+				unsup("ghost map %s: unknown token map %s", gi.name, gi.token)
+			}
+			th := c.heap(st, tk.heap, tk.sort)
+			c.prove("ghost.by."+gi.name, fmt.Sprintf("ghost map %s: the entry is written by the holder of %s for the same key (%s)", gi.name, gi.token, g.Src), st.pc,
+				Or(Eq(Select(th, k), c.me), Eq(v, Select(h, k))), nil)
 		case "once":
 			old := Select(h, k)
 			c.prove("ghost.once."+gi.name, fmt.Sprintf("set-once ghost map %s: the entry written was unset or keeps its value (%s)", gi.name, g.Src), st.pc,
